@@ -4,7 +4,8 @@ function over a handful of abstract inputs chosen by the rule).
     env = run(func, {'data': Sized(126), 'mask': False}, stop=lambda n: …)
 
 Supported: assignments to names from integer/boolean expressions (constants, names, + - * // % | & ^ >> <<, comparisons, and/or/not,
-conditional expressions, len() of a Sized value), branch tests over them.  Anything else assigned makes the target UNKNOWN; a
+conditional expressions, len() of a Sized value), branch tests over them; byte strings as tuples of ints (indexing, slicing, concatenation, len,
+append/extend on a local, int.from_bytes) and `for` loops over range(...) or such a tuple.  Anything else assigned makes the target UNKNOWN; a
 test whose value is UNKNOWN ends the run (the environment reached so far is returned).  Loops are followed at most *fuel* steps.
 """
 
@@ -32,6 +33,8 @@ def ev(e, env):
     if isinstance(e, (ast.Compare, ast.BoolOp)) and ('$' + src(e)) in env:
         return env['$' + src(e)]            # an answer the rule supplies for a whole test (`$fd in self._read`)
     if isinstance(e, ast.Constant):
+        if isinstance(e.value, bytes):
+            return tuple(e.value)            # a byte string is the tuple of its byte values
         return e.value if isinstance(e.value, (int, bool)) or e.value is None else UNKNOWN
     if isinstance(e, (ast.Attribute, ast.Subscript)) and ('$' + src(e)) in env:
         return env['$' + src(e)]            # an answer the rule supplies for a place it names (`$e.args[0]`)
@@ -49,6 +52,23 @@ def ev(e, env):
         if isinstance(e.op, ast.USub):
             return -v
         return UNKNOWN
+    if isinstance(e, ast.Subscript):
+        v = ev(e.value, env)
+        if isinstance(v, tuple):
+            if isinstance(e.slice, ast.Slice):
+                lo = ev(e.slice.lower, env) if e.slice.lower is not None else None
+                hi = ev(e.slice.upper, env) if e.slice.upper is not None else None
+                if lo is UNKNOWN or hi is UNKNOWN or e.slice.step is not None:
+                    return UNKNOWN
+                return v[lo:hi]
+            i = ev(e.slice, env)
+            if isinstance(i, int) and not isinstance(i, bool) and -len(v) <= i < len(v):
+                return v[i]
+        return UNKNOWN
+    if isinstance(e, ast.BinOp) and isinstance(e.op, ast.Add):
+        a, b = ev(e.left, env), ev(e.right, env)
+        if isinstance(a, tuple) and isinstance(b, tuple):
+            return a + b
     if isinstance(e, ast.BinOp):
         a, b = ev(e.left, env), ev(e.right, env)
         if a is UNKNOWN or b is UNKNOWN or not isinstance(a, int) or not isinstance(b, int):
@@ -97,7 +117,24 @@ def ev(e, env):
         return env['$' + src(e)]            # an answer the rule supplies for a call it cannot evaluate (`$isinstance(data, str)`)
     if isinstance(e, ast.Call) and isinstance(e.func, ast.Name) and e.func.id == 'len' and len(e.args) == 1:
         v = ev(e.args[0], env)
-        return v.n if isinstance(v, Sized) else UNKNOWN
+        return v.n if isinstance(v, Sized) else len(v) if isinstance(v, tuple) else UNKNOWN
+    if isinstance(e, ast.Call) and isinstance(e.func, ast.Name) and e.func.id in ('bytearray', 'bytes', 'list', 'tuple') and not e.keywords and len(e.args) <= 1:
+        if not e.args:
+            return ()
+        v = ev(e.args[0], env)
+        return v if isinstance(v, tuple) else UNKNOWN
+    if isinstance(e, ast.Call) and src(e.func) == 'int.from_bytes' and len(e.args) >= 1:
+        v = ev(e.args[0], env)
+        order = e.args[1] if len(e.args) > 1 else next((k.value for k in e.keywords if k.arg == 'byteorder'), None)
+        if isinstance(v, tuple) and all(isinstance(x, int) for x in v) and isinstance(order, ast.Constant) and order.value in ('big', 'little'):
+            return int.from_bytes(bytes(v), order.value)
+        return UNKNOWN
+    if isinstance(e, ast.Call) and isinstance(e.func, ast.Name) and e.func.id == 'range' and 1 <= len(e.args) <= 3 and not e.keywords:
+        vs = [ev(a, env) for a in e.args]
+        if all(isinstance(x, int) and not isinstance(x, bool) for x in vs) and (len(vs) < 3 or vs[2] != 0):
+            r = range(*vs)
+            return tuple(r) if len(r) <= 64 else UNKNOWN
+        return UNKNOWN
     if isinstance(e, ast.Call) and isinstance(e.func, ast.Name) and e.func.id in ('bool', 'int') and len(e.args) == 1:
         v = ev(e.args[0], env)
         return UNKNOWN if v is UNKNOWN else (bool(v) if e.func.id == 'bool' else int(v))
@@ -134,8 +171,37 @@ def run(func, env, stop=None, fuel=400, start=None):
                     for w in ast.walk(t):
                         if isinstance(w, ast.Name) and isinstance(w.ctx, ast.Store):
                             env[w.id] = UNKNOWN
+            elif node.kind == 'iter':
+                for e in node.succ:
+                    env.pop('@for%d' % e.dst.id, None)      # a loop entered anew starts from the beginning (it may have been left by `break`)
             elif node.kind == 'for':
-                return env, node        # loops over data are beyond this evaluator
+                # a loop over a sequence the valuation knows (range(n), a byte string) is run; loops over other data are beyond this evaluator
+                key = '@for%d' % node.id
+                if key not in env:
+                    seq = ev(a.iter, env)
+                    if not isinstance(seq, tuple) or not isinstance(a.target, ast.Name):
+                        return env, node
+                    env[key] = seq
+                seq = env[key]
+                if seq:
+                    env[a.target.id] = seq[0]
+                    env[key] = seq[1:]
+                    kind = 'T'
+                else:
+                    del env[key]
+                    kind = 'F'
+                node = next((e.dst for e in node.succ if e.kind == kind), None)
+                continue
+            elif node.kind == 'stmt' and isinstance(a, ast.Expr) and isinstance(a.value, ast.Call) and isinstance(a.value.func, ast.Attribute) \
+                    and isinstance(a.value.func.value, ast.Name) and a.value.func.attr in ('append', 'extend') and len(a.value.args) == 1:
+                nm = a.value.func.value.id
+                cur, v = env.get(nm, UNKNOWN), ev(a.value.args[0], env)
+                if isinstance(cur, tuple) and a.value.func.attr == 'append' and v is not UNKNOWN:
+                    env[nm] = cur + (v,)
+                elif isinstance(cur, tuple) and a.value.func.attr == 'extend' and isinstance(v, tuple):
+                    env[nm] = cur + v
+                elif nm in env:
+                    env[nm] = UNKNOWN
             elif node.kind == 'stmt' and isinstance(a, (ast.Return, ast.Raise)):
                 return env, node
             for e in node.succ:
